@@ -190,6 +190,10 @@ func stressRound(r *ev.Run, seed int64, round int) {
 			}()
 			lr := rand.New(rand.NewSource(seed*31 + int64(k)))
 			for c := 0; c < calls; c++ {
+				if k == 0 && round%2 == 1 && c == calls*2/3 {
+					cancel() // the server context is cancelled while calls still arrive; Close comes later
+					r.Count("stress_context_cancelled_mid_run", 1)
+				}
 				rid := sw.rids[lr.Intn(len(sw.rids))]
 				g := sw.regs[rid]
 				x := lr.Intn(100)
